@@ -39,6 +39,7 @@ def prepare(scratch, d1, opt, how):
     if not how:
         return None
     which, pyc = how[:-1], how[-1] == '+'
+    d1 = cache.base(d1)
     d0 = {'same': d1, 'other': OTHER[d1], 'sibling': SIBLING[d1]}[which]
     # a second process loads the module the first one wrote: that is when the import system leaves bytecode
     cache.seq_run(scratch, CLOCK0, [(pyc, [('define', d0, opt)]), (pyc, [('define', d0, opt)])])
@@ -234,6 +235,10 @@ def conc_jobs(tier):
         jobs.append(('noann', 'A', 'A2', 'module(other)+pyc', 'other+', 0, (False, False)))
         jobs.append(('def', 'A', 'A2', 'module(other)+pyc', 'other+', 0, (True, True)))
         jobs.append(('def', 'V', 'C', 'empty', None, 0, (True, True)))
+        # the same declaration under different generation options (parsing only / serializing only / both)
+        jobs.append(('def', 'A@uonly', 'A', 'empty', None, 0, (True, True)))
+        jobs.append(('def', 'A', 'A@ponly', 'empty', None, 0, (True, True)))
+        jobs.append(('def', 'A@ponly', 'A@uonly', 'module(sibling)', 'sibling-', 0, (True, True)))
         jobs = [j + (None,) for j in jobs]
         for (d1, d2) in [('A', 'A2'), ('A', 'B')]:
             for iname in ('empty', 'module(sibling)'):
@@ -247,6 +252,9 @@ def conc_jobs(tier):
                         if ticks and wb != (True, True):
                             continue
                         jobs.append((opt, d1, d2, iname, how or None, ticks, wb, None))
+                        if opt == 'def' and d1 == d2 and wb == (True, True):
+                            jobs.append((opt, d1 + '@uonly', d2, iname, how or None, ticks, wb, None))
+                            jobs.append((opt, d1 + '@ponly', d2 + '@uonly', iname, how or None, ticks, wb, None))
                         if not ticks and wb == (True, True):
                             jobs.append((opt, d1, d2, iname, how or None, ticks, wb, 512))
     return jobs
